@@ -101,3 +101,135 @@ for _op in CMPS:
     ))
 CONTRACTS += [cond_ctor, out_ctor]
 TRUSTED = ["signal_value: the value a signal name has on the wires the operand selects (uninterpreted); a decider condition is first CMP second"]
+
+# =================================================================================================
+# K8 for arithmetic combinators: PlanEntityEmitter._configure_arithmetic writes the placement's
+# operation, operands, output signal and per-operand wire selections onto the draftsman entity unchanged
+# (except the documented signal-each -> signal-0 output repair when no operand is `each`).
+# =================================================================================================
+ARITH_OPS = ["+", "-", "*", "/", "%", "^", "<<", ">>", "AND", "OR", "XOR"]
+
+
+def _netsel_effect(ex, a):
+    return ("netsel", a.kwargs.get("red"), a.kwargs.get("green"))
+
+
+netsel = Contract(qualname="draftsman::CircuitNetworkSelection", params={"kwargs": ty.TOpaque("kw")}, effect=_netsel_effect, verify=False,
+                  note="ASSUMED (draftsman): CircuitNetworkSelection(red=.., green=..) selects exactly those colours")
+
+
+def _sel(wires):
+    return ("netsel", "red" in wires, "green" in wires)
+
+
+def _arith_post(a, res):
+    p, e = a.props, a.entity
+    out = p["output_signal"]
+    def is_each(x):
+        return ops.eq(_s(x), z3.StringVal("signal-each")) if _is_str(x) else False
+    want_out = ops.ite(And(is_each(out), Not(is_each(p["left_operand"])), Not(is_each(p["right_operand"]))), z3.StringVal("signal-0"), _s(out))
+    return And(e.first_operand is p["left_operand"], e.second_operand is p["right_operand"], e.operation is p["operation"],
+               ops.eq(_s(e.output_signal), want_out),
+               e.first_operand_wires == _sel(p["left_operand_wires"]), e.second_operand_wires == _sel(p["right_operand_wires"]))
+
+
+for _lw, _rw in ((frozenset({"red"}), frozenset({"green"})), (frozenset({"red", "green"}), frozenset({"red"})), (frozenset({"green"}), frozenset({"red", "green"}))):
+    CONTRACTS.append(Contract(
+        qualname=PE + "_configure_arithmetic",
+        params={"self": ty.TObj("PlanEntityEmitter", only=("PlanEntityEmitter",)), "entity": ty.TObj("ExternalArithmeticCombinator"),
+                "props": ty.TRecord((("operation", ty.Str), ("left_operand", _OPERAND), ("right_operand", _OPERAND), ("output_signal", ty.Str),
+                                     ("left_operand_wires", ty.TConcrete(_lw)), ("right_operand_wires", ty.TConcrete(_rw))))},
+        ensures=[("operation, operands, output signal and both wire selections are the placement's", _arith_post)],
+        uses={"opaque.CircuitNetworkSelection": netsel, "PlanEntityEmitter._wires_to_network_selection": "inline"},
+        properties=("C01", "C07", "C02"), min_obligations=1, no_replay=True,
+        note=f"wires {sorted(_lw)} / {sorted(_rw)}"))
+CONTRACTS.append(netsel)
+
+# =================================================================================================
+# K8 for multi-condition deciders: every row of the placement becomes one draftsman Condition with the same
+# meaning (a constant-first row is mirrored), the same wire selections and the same and/or connective, in order.
+# =================================================================================================
+ROWS = []
+
+
+def _row_cond_effect(ex, a):
+    ROWS.append(dict(a.kwargs))
+    return ("Condition", len(ROWS) - 1)
+
+
+row_ctor = Contract(qualname="draftsman::DeciderCombinator.Condition", params={"kwargs": ty.TOpaque("kw")}, effect=_row_cond_effect, verify=False,
+                    note="ASSUMED (draftsman): Condition(**kw) stores its arguments as given (rows are collected in call order)")
+FW, SW = frozenset({"first-wires"}), frozenset({"second-wires"})
+
+
+def _row_type(op, shape, conn):
+    sig, const = shape
+    return ty.TRecord((("comparator", ty.TConcrete(op)), ("compare_type", ty.TConcrete(conn)),
+                       ("first_signal", ty.Str if sig[0] else ty.TConcrete(None)), ("first_constant", ty.TConcrete(None) if sig[0] else ty.Int),
+                       ("first_signal_wires", ty.TConcrete(FW if sig[0] else None)),
+                       ("second_signal", ty.Str if sig[1] else ty.TConcrete(None)), ("second_constant", ty.TConcrete(None) if sig[1] else ty.Int),
+                       ("second_signal_wires", ty.TConcrete(SW if sig[1] else None))))
+
+
+def _row_meaning(row):
+    f = _val(_s(row["first_signal"])) if row["first_signal"] is not None else row["first_constant"]
+    s = _val(_s(row["second_signal"])) if row["second_signal"] is not None else row["second_constant"]
+    return A.cmp(row["comparator"], f, s)
+
+
+def _emitted_meaning(kw):
+    f = _val(_s(kw["first_signal"]))
+    s = _val(_s(kw["second_signal"])) if "second_signal" in kw else kw["constant"]
+    return A.cmp(kw["comparator"], f, s)
+
+
+def _rows_post(a, res):
+    rows = a.conditions_list
+    if len(ROWS) != len(rows):
+        return False
+    cs = []
+    for row, kw in zip(rows, ROWS):
+        mirrored = row["first_signal"] is None and row["second_signal"] is not None
+        cs.append(ops.Iff(_emitted_meaning(kw), _row_meaning(row)))
+        cs.append(kw.get("compare_type") == row["compare_type"])
+        if row["first_signal"] is not None:
+            cs.append(kw.get("first_signal_networks") == _sel_tag(FW))
+        if row["second_signal"] is not None:
+            cs.append((kw.get("first_signal_networks") if mirrored else kw.get("second_signal_networks")) == _sel_tag(SW))
+    return And(*cs)
+
+
+def _sel_tag(w):
+    return ("netsel-of", w)
+
+
+def _netsel_of(ex, a):
+    return ("netsel-of", a.args[1] if len(a.args) > 1 else a.args[0])
+
+
+wires_sel = Contract(qualname=PE + "_wires_to_network_selection", params={"self": ty.TOpaque("s"), "wires": ty.TOpaque("w")},
+                     effect=lambda ex, a: ("netsel-of", a.wires), verify=False, note="verified with _configure_arithmetic (inlined there): selects exactly the colours of the set")
+
+
+def _signals_nonempty(a):
+    cs = []
+    for row in a.conditions_list:
+        for k in ("first_signal", "second_signal"):
+            if row[k] is not None:
+                cs.append(z3.Length(row[k]) > 0)
+    return And(*cs) if cs else True
+
+
+_SHAPES = {"sig-const": ((True, False), None), "const-sig": ((False, True), None), "sig-sig": ((True, True), None)}
+for _op in ["<", "<=", ">", ">=", "==", "!="]:
+    for _sn, _sh in _SHAPES.items():
+        CONTRACTS.append(Contract(
+            qualname=PE + "_configure_decider_multi_condition",
+            params={"self": ty.TObj("PlanEntityEmitter", only=("PlanEntityEmitter",)), "entity": ty.TObj("ExternalDeciderCombinator"),
+                    "props": ty.TRecord((("output_signal", ty.Str), ("output_value", _OPERAND), ("copy_count_from_input", ty.Bool), ("output_value_wires", ty.TConcrete(None)))),
+                    "conditions_list": ty.TTuple((_row_type(_op, _sh, "or"), _row_type(">", ((True, False), None), "and")))},
+            requires=[("(reset capture)", lambda a: ROWS.clear() or True), ("signal names are non-empty", _signals_nonempty)],
+            ensures=[("every row keeps its meaning, wires and connective, in order", _rows_post)],
+            uses={"opaque.Condition": row_ctor, "opaque.Output": out_ctor, "PlanEntityEmitter._wires_to_network_selection": wires_sel},
+            properties=("C01", "C07", "C05"), min_obligations=1, no_replay=True, note=f"first row {_sn} {_op}; second row signal > constant (and)"))
+CONTRACTS += [row_ctor, wires_sel]
